@@ -718,7 +718,9 @@ def r7(ctx, rep):
                     okr = inner.get("k") == "un" and inner["op"] == spec["rust_op"] and show(inner["e"]).lstrip("*") == "val"
                     # type preserved: Integer->Integer, Float->Float, Boolean->Boolean
                 else:
-                    okr = inner.get("k") == "bin" and inner["op"] == spec["rust_op"] and show(inner["lhs"]).lstrip("*") == "left" and show(inner["rhs"]).lstrip("*") == "right"
+                    sides = (show(inner["lhs"]).lstrip("*"), show(inner["rhs"]).lstrip("*")) if inner.get("k") == "bin" else ()
+                    # (source order, except for the symmetric `==` / `!=`)
+                    okr = inner.get("k") == "bin" and inner["op"] == spec["rust_op"] and (sides == ("left", "right") or (spec["rust_op"] in ("==", "!=") and sides == ("right", "left")))
                 good = good and okr
             else:
                 good = False
